@@ -360,14 +360,30 @@ def show(o, amap, news):
 
 # ----------------------------------------------------------------------------------------------------------------------
 
-def retort_for(g, t):
-    from adaptix import Retort, name_mapping
+class InsertingDict(dict):
+    """a mapping that materialises missing keys on item access (like collections.defaultdict)"""
+
+    def __missing__(self, key):
+        self[key] = 0
+        return 0
+
+
+def inserting(o):
+    if isinstance(o, dict):
+        return InsertingDict((k, inserting(v)) for k, v in o.items())
+    if isinstance(o, list):
+        return [inserting(x) for x in o]
+    return o
+
+
+def retort_for(g, t, mode=None):
+    from adaptix import DebugTrail, Retort, name_mapping
     recipe = []
     for cls, (pycls, m) in g.classes.items():
         if m[3]:
             n = len(m[2])
             recipe.append(name_mapping(pycls, extra_in=f"f{n - 1}", extra_out=[f"f{i}" for i in range(n - m[3], n)]))
-    return Retort(recipe=recipe)
+    return Retort(recipe=recipe, debug_trail=mode or DebugTrail.ALL)
 
 
 def run(rep, tier, seed):
@@ -410,7 +426,8 @@ def run(rep, tier, seed):
                 "type: 2 (quick) or 3 arguments per operation; load from plain data with optional fields absent at random and "
                 "unknown keys, dump and convert from instances; convert to a twin type with List / Sequence / Set / FrozenSet "
                 "swapped and int -> Any at random; Any positions hold nested lists / dicts so that aliasing is observable; "
-                "non-trivial = an accepted call",
+                "every load / dump under a debug_trail drawn from the three modes; 30% of the load arguments built from mappings that "
+                "insert missing keys on item access; non-trivial = an accepted call",
         "samples": samples or [{"note": "none"}],
         "distribution": stats,
     })
@@ -427,9 +444,13 @@ def classify(m, got):
 
 
 def one_case(rep, g, t, op, r, stats, cases, meta, get_converter):
-    rt = retort_for(g, t)
+    from adaptix import DebugTrail
+    mode = r.choice(list(DebugTrail))
+    rt = retort_for(g, t, mode)
     if op == "load":
         arg = g.data(t)
+        if r.random() < 0.3:
+            arg = inserting(arg)          # mappings that would grow if the loader probed them by item access
         call = lambda: rt.load(arg, g.py_ty(t))     # noqa: E731
         plan = f"(Some (load_plan {p(coq_ty_late(t))}))"
         dst = None
@@ -464,7 +485,7 @@ def one_case(rep, g, t, op, r, stats, cases, meta, get_converter):
         number(c, amap)
     n0 = len(amap)
     snapshot = copy.deepcopy(arg)
-    info = {"op": op, "type": repr(strip(t)), "argument": repr(arg)[:300]}
+    info = {"op": op, "type": repr(strip(t)), "argument": repr(arg)[:300], "debug_trail": mode.name if op != "convert" else "-"}
     try:
         res1 = call()
         res2 = call()
